@@ -119,8 +119,8 @@ def _ti_lt(ctx: Ctx, c: Collector) -> None:
     L2 = ("cmp", "<", iv, oc) if iv is not None else None      # tier i is an "add" tier of other
     # guards outside the loop (length assertions) are not part of the per-tier decision
     tail = [r for r in s.returns if not r.iters]
-    pre = list(tail[-1].guards) if tail else []
-    for r in tail:
+    pre = list(in_loop[0].guards)
+    for r in list(tail) + in_loop:
         pre = [g for g in pre if g in r.guards]
 
     def own(gs):
@@ -168,15 +168,52 @@ def _ti_lt(ctx: Ctx, c: Collector) -> None:
     REL = {"lt": "self < other", "eq": "equal tiers", "gt": "other < self"}
     KIND = {"AA": "added by both", "SA": "added by self, replaced by other", "OA": "added by other, replaced by self", "EE": "replaced by both"}
 
+    E1 = T.canon_cmp("==", iv, sc) if iv is not None else None
+    E2 = T.canon_cmp("==", iv, oc) if iv is not None else None
+    G1 = ("cmp", "<", sc, iv) if iv is not None else None
+    G2 = ("cmp", "<", oc, iv) if iv is not None else None
+
     def assignment(rel, kind, direction, sigma):
+        # kind = (position of the index relative to self.cutoff, ... to other.cutoff), each "b"elow / "a"t / a"B"ove
         a = {LT: rel == "lt", GT: rel == "gt", EQ: rel == "eq",
              C_LT: direction == "OA", C_GT: direction == "SA", C_EQ: direction is None}
         if iv is not None:
-            a[L1] = kind in ("AA", "SA")
-            a[L2] = kind in ("AA", "OA")
+            ps, po = kind
+            a[L1], a[E1], a[G1] = ps == "b", ps == "a", ps == "B"
+            a[L2], a[E2], a[G2] = po == "b", po == "a", po == "B"
         for v, val in sigma.items():
             a[T.var(v)] = val
         return a
+
+    def cls_of(kind):
+        ps, po = kind
+        return {(True, True): "AA", (True, False): "SA", (False, True): "OA", (False, False): "EE"}[(ps == "b", po == "b")]
+
+    def valid(kind, direction):
+        if direction is None:
+            return kind[0] == kind[1]
+        ahead, behind = (kind[0], kind[1]) if direction == "OA" else (kind[1], kind[0])      # OA: self.cutoff < other.cutoff, self is ahead
+        return (ahead, behind) in (("b", "b"), ("a", "b"), ("B", "b"), ("B", "a"), ("B", "B"))
+
+    # index 0 lies below both cutoffs when the constructor asserts cutoff >= 1; otherwise a scan may start anywhere
+    init_fi = ctx.prog.functions.get(TI + ".__init__")
+    positive_cutoff = False
+    if init_fi is not None:
+        for e in summarise(ctx.prog, init_fi).of_kind("assert"):
+            t = T.strip(e.term[1])
+            if t[0] == "cmp" and T.contains((t,), T.var("cutoff")) and ((t[1] == "<=" and t[2] == T.const(1)) or (t[1] == "<" and t[2] == T.const(0))):
+                positive_cutoff = True
+    c.info["cutoff_at_least_one_asserted"] = positive_cutoff
+
+    def successors(kind, direction):
+        nxt = {"b": ("b", "a"), "a": ("B",), "B": ("B",)}
+        if kind is None and positive_cutoff:
+            cands = [("b", "b")]
+        elif kind is None:
+            cands = [(x, y) for x in "baB" for y in "baB"]
+        else:
+            cands = [(x, y) for x in nxt[kind[0]] for y in nxt[kind[1]]]
+        return [k for k in cands if valid(k, direction)]
 
     def code_step(rel, kind, direction, sigma):
         a = assignment(rel, kind, direction, sigma)
@@ -212,7 +249,7 @@ def _ti_lt(ctx: Ctx, c: Collector) -> None:
         return None, q
 
     def code_end(direction, sigma):
-        a = assignment("eq", "EE", direction, sigma)
+        a = assignment("eq", ("B", "B"), direction, sigma)
         for r in tail:
             if boolfn.guards_hold_leaves(own(r.guards), a):
                 return bool(boolfn.eval_leaves(r.term, a))
@@ -224,15 +261,18 @@ def _ti_lt(ctx: Ctx, c: Collector) -> None:
         if iv is None and (updates or any(T.contains((g[1],), sc) or T.contains((g[1],), oc) for _, gs in outcomes for g in gs)):
             raise boolfn.NotBoolean("the tier index is not available (no enumerate) but cutoffs are tested")
         for direction in (None, "SA", "OA"):
-            start = (0, tuple(sorted(init.items())), "N")
+            start = (None, tuple(sorted(init.items())), "N")
             seen = {start}
             todo = [start]
             while todo:
-                phase, sig, q = todo.pop()
+                pos, sig, q = todo.pop()
                 sigma = dict(sig)
                 hist = {"N": "", "SG": " after tiers that were equal where self adds and other replaces", "OG": " after tiers that were equal where other adds and self replaces"}[q]
-                # end of the scan (all tiers equal): allowed once the tiers between the cutoffs have been seen
-                if direction is None or phase >= 1:
+                # end of the scan (all tiers equal).  Cutoffs do not exceed the number of tiers, so the last
+                # index is at least cutoff - 1 for both operands: with different cutoffs the scan has seen
+                # a tier between them
+                ahead = None if pos is None or direction is None else (pos[0] if direction == "OA" else pos[1])
+                if pos is not None and (direction is None or ahead in ("a", "B")):
                     got = code_end(direction, sigma)
                     want = q == "OG"
                     explored += 1
@@ -243,24 +283,18 @@ def _ti_lt(ctx: Ctx, c: Collector) -> None:
                     elif got != want:
                         pr.append("equal intervals do not compare as 'not less' (fall-through must return False)" if q == "N" else
                                   "the fall-through orders delays with equal tiers the wrong way round: the delay that adds between the cutoffs never arrives earlier")
-                kinds = []
-                if phase == 0:
-                    kinds.append(("AA", 0))
-                if direction is not None and phase <= 1:
-                    kinds.append((direction, 1))
-                if direction is None or phase >= 1:
-                    kinds.append(("EE", 2))
-                if iv is None:
-                    kinds = [("AA", 0)]
-                for kind, nphase in kinds:
+                kinds = successors(pos, direction) if iv is not None else [("b", "b")]
+                for kind in kinds:
+                    kc = cls_of(kind)
                     for rel in ("lt", "eq", "gt"):
                         explored += 1
                         got, nsig = code_step(rel, kind, direction, sigma)
-                        want, nq = spec_step(rel, kind, q)
+                        want, nq = spec_step(rel, kc, q)
                         if got != want:
-                            where = f"at a tier with {REL[rel]} ({KIND[kind]}){hist}"
-                            if want == "abort" and kind in ("SA", "OA"):
-                                pr.append("a pair that differs first in a tier that is an add-tier of one and an ext-tier of the other is ordered instead of being reported incomparable")
+                            at = "" if "a" not in kind else " (the tier right at " + ("both cutoffs" if kind == ("a", "a") else "self.cutoff" if kind[0] == "a" else "other.cutoff") + ": it is already replaced, not added)"
+                            where = f"at a tier with {REL[rel]} ({KIND[kc]}){at}{hist}"
+                            if want == "abort" and kc in ("SA", "OA"):
+                                pr.append("a pair that differs first in a tier that is an add-tier of one and an ext-tier of the other is ordered instead of being reported incomparable" + at)
                             elif want == "abort":
                                 pr.append(f"{where} the scan {'continues' if got is None else 'returns ' + str(got)} instead of reporting the pair incomparable: "
                                           "the adding delay arrives later whenever the departure time's tier is > 0, so a later tier must not make it the smaller one")
@@ -275,7 +309,7 @@ def _ti_lt(ctx: Ctx, c: Collector) -> None:
                                           "a later tier decides, so a < b and b < a can both hold")
                             continue
                         if got is None:
-                            nxt = (nphase, tuple(sorted(nsig.items())), nq)
+                            nxt = (kind, tuple(sorted(nsig.items())), nq)
                             if nxt not in seen:
                                 seen.add(nxt)
                                 todo.append(nxt)
